@@ -161,6 +161,15 @@ def value_attr(ex, o, attr, line):
             return (o.msg,)
     if isinstance(o, T):
         return BuiltinMethod(o, attr)
+    if isinstance(o, SuperRef):
+        mro = ex.program.mro(o.after_cls)[1:]
+        for c in mro:
+            f = c.methods.get(attr)
+            if f is not None and f.body is not None:
+                return BoundMethod(o.obj, f, name='super.' + attr)
+        if attr == '__init__':
+            return Builtin('noop')
+        raise Unsupported('super().%s not found' % attr)
     if isinstance(o, Stub):
         if attr in o.attrs:
             return o.attrs[attr]
@@ -429,6 +438,8 @@ def call_builtin(ex, name, args, kwargs, line, node=None):
     if h is not None:
         return h(ex, args, kwargs, line)
     a0 = args[0] if args else None
+    if name == 'noop':
+        return None
     if name == 'len':
         if isinstance(a0, Arr):
             if a0.objs is not None:
@@ -608,6 +619,11 @@ def call_builtin(ex, name, args, kwargs, line, node=None):
         return pyobjects.copy_value(ex, a0, deep=name.endswith('deepcopy'))
     if name == 'vector':
         return []
+    if name == 'super':
+        fr = ex.frame
+        if fr.func is None or fr.func.cls is None or fr.self_obj is None:
+            raise Unsupported('super() outside a method')
+        return SuperRef(fr.self_obj, fr.func.cls)
     raise Unsupported('builtin %s (line %s)' % (name, line))
 
 
